@@ -90,8 +90,13 @@ def spelled_skeleton(text):
     return "".join(out)
 
 
+def inner_case(case):
+    """`D <case>`: the case run under ast.EnableQueryDebug = true"""
+    return case[2:] if case.startswith("D ") else case
+
+
 def case_skeleton(case):
-    f = case.split(" ")
+    f = inner_case(case).split(" ")
     if f[0] == "k":
         return f[2]
     if f[0] == "r":
@@ -156,24 +161,41 @@ def nontrivial(case, impl):
         return None
     kinds = sum(1 for k in "&|!(" if k in sk)
     if kinds >= 2:
-        f = case.split(" ")
-        return (f[0], sk if f[0] == "k" else f[2])
+        f = inner_case(case).split(" ")
+        return (("D" if case.startswith("D ") else "") + f[0], sk if f[0] == "k" else f[2])
+    return None
+
+
+def real_text(spelled_hex):
+    """the query text the executor parses for a spelled case (placeholders replaced by the atom spellings)"""
+    try:
+        rc, out = common.sh([common.HARNESS, "c12", "exec"], inp=("S " + spelled_hex + "\n").encode(), timeout=60)
+        f = out.strip().split(" ")
+        if rc == 0 and len(f) == 2 and f[0] == "text":
+            return _unhex(f[1]).decode("latin-1")
+    except Exception:
+        pass
     return None
 
 
 def describe(case, impl, model, spec):
-    f = case.split(" ")
+    f = inner_case(case).split(" ")
     d = {"case": case, "impl": impl, "model": model, "spec": spec}
+    if case.startswith("D "):
+        d["configuration"] = "executed with ast.EnableQueryDebug.Store(true); must answer as with the switch off"
     if f[0] == "k":
         d.update(kind="skeleton: ast.Parse + typed tree (Visitor) + EvalBool over all assignments",
                  query=canonical(f[2]), atoms=int(f[1]))
     elif f[0] == "x":
         d.update(kind="damaged spelling: accept/reject + EvalBool over the row table, model only",
-                 text_with_placeholders=_unhex(f[1]).decode("latin-1"), atom_truth=f[2])
+                 text_with_placeholders=_unhex(f[1]).decode("latin-1"), query=real_text(f[1]), atom_truth=f[2])
     elif f[0] == "r":
         d.update(kind="re-spelling: ast.Parse + EvalBool over the row table (14 rows; rows 9-14 have NULL / absent "
                       "fields: 9 n; 10 s; 11 n,s,flag,g; 12 flag; 13 g; 14 n,s; `tags` is empty on rows 3,6,8,10,11,13)",
-                 base_skeleton=f[1], spelled_with_placeholders=_unhex(f[2]).decode("latin-1"),
+                 base_skeleton=f[1], spelled_with_placeholders=_unhex(f[2]).decode("latin-1"), query=real_text(f[2]),
+                 placeholders="x<letter>_<v>: spelling v (a canonical, b compact + upper case, c one blank in every gap, "
+                              "d tab/CR/LF in every gap, e..z random whitespace / keyword case in every place the grammar "
+                              "has WS* / WS+) of operation atom <letter>, see harness/c12_atoms.go (c12SpellAtom)",
                  spelled_skeleton=spelled_skeleton(_unhex(f[2]).decode("latin-1")), atom_truth=f[3])
     return d
 
@@ -189,14 +211,21 @@ RULE = ("k: every token sequence over {atom ( ) and or not} up to length 5 (quic
         "identical, mirrored, distant, part-whole, one atom or connective different, under not, nested, constants / "
         "string-typed symbol inside, some parentheses left out), all 2^n assignments of the distinct atoms; 200 / "
         "1500 of that family over operation atoms as r-cases.  r: operation atoms (bool symbols, =, !=, <, <=, >, >= on "
-        "int / string / bool fields, in, between, contains, icontains and their not-forms, anyOf / allOf / isEmpty on a "
-        "set field; 25 atoms, 2-3 spellings each) over a 14-row table in which every scalar field is present-true, "
+        "int / string / bool / datetime fields, = / != null, in, between, contains, icontains and their not-forms over "
+        "numbers, strings and datetime(...) literals, anyOf / allOf / count / isEmpty on a set field, count / isEmpty of a "
+        "sub-query `from kids where ...`; 39 atoms, each a template over the places where ZitiQl.g4 has WS* / WS+ / one "
+        "WS and over its case-insensitive keywords, 26 spellings each: canonical, compact + upper case, a blank in every "
+        "gap, tab/CR/LF in every gap, 22 random - inside `datetime( ... )`, between `not` and in/between/contains, around "
+        "commas and brackets, inside `anyOf( x )`, `count( from x where ... )`, around comparison operators; every "
+        "placeholder of every r / x case takes a random spelling) over a 14-row table in which every scalar field is present-true, "
         "present-false and NULL / absent on some row and the set is empty on some rows; atom truth computed by the "
         "generator from the row (null operand: comparison false, != / not contains true); negated atoms: every atom in "
         "21 shapes (a, not a, not (a), (not (a)), not not a, not (not (a)), not ((a)), b and not a, a or (not (a)), "
         "not (a and b), not a and b, (not (a)) and (not (b)), ...) x 1 / 8 rounds of spellings; 1800 / 46000 random "
         "re-spellings (keyword case, blanks/tabs/CR/LF, 0-3 redundant pairs of parentheses, operator-case and "
         "spacing variants inside the atoms) of random mixed queries with 1-5 operation atoms.  "
+        "D: 234 / 2524 of the k and r cases executed a second time with ast.EnableQueryDebug = true (process-wide "
+        "configuration; stderr / log to /dev/null; same outcome required).  "
         "x: 1500 / 40000 damaged spellings (required blank removed, word split/glued, parenthesis dropped/doubled, "
         "reserved or keyword-like word as atom, `not` + blank + in…/contains…) compared with the lexer model only.  "
         "non-trivial = accepted and mixes at least two of {and, or, not, parentheses}; distinct = (kind, skeleton "
@@ -251,7 +280,7 @@ def run(ctx, replay_cases=None):
         return common.finish(ctx, trusted_base=TRUSTED)
 
     spec_bad, corr_bad, keys = [], [], set()
-    hist = {"k_cases": 0, "r_cases": 0, "x_cases": 0, "other_error": 0, "accepted": 0, "parse_error": 0, "type_error": 0,
+    hist = {"k_cases": 0, "r_cases": 0, "x_cases": 0, "D_cases": 0, "other_error": 0, "accepted": 0, "parse_error": 0, "type_error": 0,
             "accepted_with_and_then_or": 0, "by_atoms": {}, "model_vs_spec_differ": 0}
     for i in range(n):
         c, a, m, s = lines[i], impl[i], model[i], spec[i]
